@@ -348,8 +348,9 @@ def gen_calls(ctx, count):
         up = ctx.upper()
         er[7] = up | sp
         if kind.endswith("_reg"):
-            reg = r.randrange(7)
-            er[reg] = ctx.upper() | target
+            reg = r.randrange(8)                 # ER7 too: JSR @ER7 jumps to the stack pointer after the push
+            if reg != 7:
+                er[reg] = ctx.upper() | target
             code = (isa.enc_jmp if kind.startswith("jmp") else isa.enc_jsr)("reg", reg)
         elif kind.endswith("_abs"):
             code = (isa.enc_jmp if kind.startswith("jmp") else isa.enc_jsr)("abs", target)
